@@ -347,7 +347,7 @@ Qed.
 (* the configuration of the phantom witness with the repair switched on (= the current code) *)
 Definition fx_cfg : pcfg :=
   {| pc_reader := {| c_recursive := true; c_mask := WATCHDOG_ALL; c_root := ph_R; c_fix_ignored := true;
-                     c_fix_movein := true; c_fix_simulate := true; c_fix_moveout := true; c_faults := [] |};
+                     c_fix_movein := true; c_fix_simulate := true; c_fix_relabel := true; c_fix_moveout := true; c_faults := [] |};
      pc_full := false; pc_filter := None; pc_delay := 5 |}.
 
 (* mkdir R/d; drain; mv R/d O/d; drain; touch O/d/g; drain - the history that refutes soundness of the pinned code -
